@@ -278,9 +278,8 @@ func fnBitfield(ctx *cmdContext, args map[string]any) (output respValue, err err
 }
 
 func fnBitOp(ctx *cmdContext, args map[string]any) (output respValue, err error) {
-	keys := args["key"].([]any)
-	destKeyName := keys[0].(string)
-	srcKeys := keys[1:]
+	destKeyName, _ := args["destkey"].(string)
+	srcKeys, _ := args["key"].([]any)
 	if len(srcKeys) == 0 {
 		// the first key is the destination; at least one source key is required
 		output.data = respErrorString("ERR wrong number of arguments for 'bitop' command")
